@@ -1,128 +1,446 @@
 /-
 C12 — parsers return exactly the rows a well-formed document describes.
 
-Renderers (`renderSvm`, `renderFm`, `renderCsv` over a `Style` capturing every free choice of the
-format), the full statements `C12_libsvm / C12_libfm / C12_csv` (stated; see CONFIG['partial']) and the
-proved core of the round trip: `C12_pair_partial` — `ParsePair` on a rendered `lexeme[:lexeme]` followed by
-a separator returns exactly the two lexemes' values and stops exactly behind them (generic in the
-conversions, contract `Conv.Exact`).  The document-level step from lines to blocks is C11.
+Tables (`TRow`, `Entry`: every number is a *lexeme*, i.e. a non-empty string of number characters), styles
+(`LineStyle`: blanks in front of the label, separator in front of `qid:` and of every entry, trailing blanks,
+trailing `#` comment; `RowStyle`: blank / comment lines in front of the row, end-of-line string), renderers,
+and the round trip for libsvm (`C12_libsvm`): for every table, style and every conversion that is local
+and exact, `ParseBlock` returns exactly the rows of the table, in order.  A lexeme means what the conversion
+returns for it standing alone (numeric accuracy is C14).  libfm and csv: statements, see CONFIG['partial'].
+Helper lemmas: DmlcModel/Parse/Render.lean; the reduction of a block to its lines is C11.
 -/
 import DmlcModel.Props.C11
+import DmlcModel.Parse.Render
+import DmlcModel.Props.C11Witness
 
 namespace DmlcModel.Props.C12
 open DmlcModel DmlcModel.Parse DmlcModel.Props.C11
 
-/-! ### lexemes and the exactness contract -/
-
-/-- a number lexeme is spelled with number characters only (digits, sign, '.', 'e', 'E') and is not empty;
-which of these strings are *numbers* is C14's business: here a lexeme means whatever the conversion
-returns for it when it stands alone -/
-def IsLexeme (lex : Bytes) : Prop := lex ≠ [] ∧ ∀ b ∈ lex, isDigitCharB b = true
-
-/-- bytes that may follow a lexeme: anything that is not a number character of strtonum.h nor a letter
-(so that `1e5x`, `0x10`, `inf` … are not lexemes followed by something) -/
-def isDelimB (b : UInt8) : Bool := !isDigitCharB b && !ConvSimple.isNumCh b
-
-/-- `Conv.Exact`: a lexeme followed by a delimiter converts to the value of the lexeme standing alone -/
-structure Exact (g : Bytes → Res Nat) : Prop where
-  exact : ∀ lex tail : Bytes, IsLexeme lex → (∀ b, tail.head? = some b → isDelimB b = true) →
-    g (lex ++ tail) = g lex
-
-structure Conv.ExactWith (conv : Conv) (gR gI gQ : Bytes → Res Nat) (gC : Bytes → Res (Nat × Nat)) : Prop where
+/-- the conversions are local (C11) and exact on lexemes -/
+structure ExactWith (conv : Conv) (gR gI gQ : Bytes → Res Nat) (gC : Bytes → Res (Nat × Nat)) : Prop where
   loc : conv.LocalWith gR gI gQ gC
   real : Exact gR
   index : Exact gI
   qid : Exact gQ
-  cell : ∀ lex tail : Bytes, IsLexeme lex → (∀ b, tail.head? = some b → isDelimB b = true) →
-    gC (lex ++ tail) = gC lex ∧ ∀ v k, gC lex = .ok (v, k) → k = lex.length
 
-/-! ### tables, styles, renderers -/
+/-- a blank or comment line between rows -/
+structure Filler where
+  blanks : Bytes
+  comment : Option Bytes
+  eol : Bytes
 
-def blanksOnly (s : Bytes) : Prop := ∀ b ∈ s, isBlankB b = true
-def isSep (s : Bytes) : Prop := s ≠ [] ∧ blanksOnly s
-def isEolStr (s : Bytes) : Prop := s ≠ [] ∧ ∀ b ∈ s, isEolB b = true
-def noEol (s : Bytes) : Prop := ∀ b ∈ s, isEolB b = false ∧ b ≠ 0
-
-def decimal (n : Nat) : Bytes := (Nat.toDigits 10 n).map fun c => UInt8.ofNat c.toNat
-
-structure Entry where
-  field : Nat := 0
-  index : Nat
-  value : Option Bytes      -- lexeme
-structure TRow where
-  label : Bytes             -- lexeme
-  weight : Option Bytes     -- lexeme
-  qid : Option Nat := none
-  entries : List Entry
-
-/-- every free choice of the libsvm / libfm line format, per row -/
 structure RowStyle where
-  lead : Bytes              -- blanks in front of the label
-  qidSep : Bytes            -- separator in front of `qid:`
-  seps : List Bytes         -- separator in front of each entry
-  trail : Bytes             -- blanks behind the last token
-  comment : Option Bytes    -- libsvm: `#` and the rest of the line
-  eol : Bytes               -- `\n`, `\r`, `\r\n`, …
-  filler : List Bytes       -- blank / comment lines (with their end of line) in front of this row
+  filler : List Filler      -- blank / comment lines in front of the row
+  line : LineStyle
+  eol : Bytes               -- `\n`, `\r`, `\r\n`, doubled, …
 
-def renderEntry (fm : Bool) (sep : Bytes) (e : Entry) : Bytes :=
-  sep ++ (if fm then decimal e.field ++ [58] else []) ++ decimal e.index ++
-    (match e.value with | some v => 58 :: v | none => [])
+structure WfFiller (f : Filler) : Prop where
+  blanks : blanksOnly f.blanks
+  comment : ∀ c, f.comment = some c → Clean c
+  eol : isEolStr f.eol
 
-def renderRow (fm : Bool) (σ : RowStyle) (r : TRow) : Bytes :=
-  σ.filler.flatten ++ σ.lead ++ r.label ++ (match r.weight with | some w => 58 :: w | none => []) ++
-    (match r.qid with | some q => σ.qidSep ++ [113, 105, 100, 58] ++ decimal q | none => []) ++
-    ((σ.seps.zip r.entries).flatMap fun se => renderEntry fm se.1 se.2) ++ σ.trail ++
-    (match σ.comment with | some c => 35 :: c | none => []) ++ σ.eol
+structure WfRow (σ : RowStyle) (r : TRow) : Prop where
+  filler : ∀ f ∈ σ.filler, WfFiller f
+  line : WfLine σ.line r
+  eol : isEolStr σ.eol
+  values : (∀ e ∈ r.entries, e.value.isSome = true) ∨ (∀ e ∈ r.entries, e.value = none)
 
-def renderSvm (σ : List RowStyle) (T : List TRow) : Bytes := ((σ.zip T).flatMap fun sr => renderRow false sr.1 sr.2)
-def renderFm (σ : List RowStyle) (T : List TRow) : Bytes := ((σ.zip T).flatMap fun sr => renderRow true sr.1 sr.2)
+/-- the lines (with their end-of-line strings) one styled row is rendered to -/
+def svmPieces (z : RowStyle × TRow) : List (Bytes × Bytes) :=
+  z.1.filler.map (fun f => (f.blanks ++ cPart f.comment, f.eol)) ++ [(svmContent z.1.line z.2, z.1.eol)]
 
-def WfRow (fm : Bool) (mode : Nat) (σ : RowStyle) (r : TRow) : Prop :=
-  blanksOnly σ.lead ∧ isSep σ.qidSep ∧ σ.seps.length = r.entries.length ∧ (∀ s ∈ σ.seps, isSep s) ∧
-  blanksOnly σ.trail ∧ (∀ c, σ.comment = some c → fm = false ∧ noEol c) ∧ isEolStr σ.eol ∧
-  IsLexeme r.label ∧ (∀ w, r.weight = some w → IsLexeme w) ∧ (fm = true → r.qid = none) ∧
-  (∀ e ∈ r.entries, (∀ v, e.value = some v → IsLexeme v) ∧ (mode > 0 → 1 ≤ e.index ∧ (fm = true → 1 ≤ e.field))) ∧
-  ((∀ e ∈ r.entries, e.value.isSome) ∨ (∀ e ∈ r.entries, e.value = none)) ∧
-  (∀ l ∈ σ.filler, ∃ b c e, l = b ++ c ++ e ∧ blanksOnly b ∧ isEolStr e ∧ (c = [] ∨ (fm = false ∧ ∃ c', c = 35 :: c' ∧ noEol c')))
+/-- a table rendered as a libsvm document, row `i` in style `σ[i]` -/
+def renderSvm (σ : List RowStyle) (T : List TRow) : Bytes := joinPieces ((σ.zip T).flatMap svmPieces)
 
-/-- the row a table row describes: lexemes mean what the conversion makes of them standing alone -/
-def expectRow (fm : Bool) (gR gI gQ : Bytes → Res Nat) (iw mode : Nat) (r : TRow) : Res Row := do
+/-- the row a parsed line means to the reader of the block: label, optional weight and qid, indices (shifted
+under 1-based indexing), values if there are any -/
+def expectSvmRow (iw mode : Nat) (L : SvmLine) : Row :=
+  toRow (if mode > 0 then decRecIdx iw (svmRec L) else svmRec L)
+
+theorem filterMap_all_some {α : Type} (fs : List (α × Option Nat)) (h : ∀ x ∈ fs, x.2.isSome = true) :
+    (fs.filterMap (·.2)).length = fs.length := by
+  induction fs with
+  | nil => rfl
+  | cons x fs ih =>
+    obtain ⟨v, hv⟩ := Option.isSome_iff_exists.mp (h x (by simp))
+    simp [List.filterMap_cons, hv, ih (fun y hy => h y (by simp [hy]))]
+
+theorem filterMap_all_none {α : Type} (fs : List (α × Option Nat)) (h : ∀ x ∈ fs, x.2 = none) :
+    fs.filterMap (·.2) = [] := by
+  induction fs with
+  | nil => rfl
+  | cons x fs ih => simp [List.filterMap_cons, h x (by simp), ih (fun y hy => h y (by simp [hy]))]
+
+theorem feats_uniform (r : TRow) (L : SvmLine) (hsh : L.feats.map (·.2.isSome) = r.entries.map (·.value.isSome))
+    (hv : (∀ e ∈ r.entries, e.value.isSome = true) ∨ (∀ e ∈ r.entries, e.value = none)) :
+    (L.feats.filterMap (·.2)).length = L.feats.length ∨ L.feats.filterMap (·.2) = [] := by
+  rcases hv with h | h
+  · refine Or.inl (filterMap_all_some _ (fun x hx => ?_))
+    have : x.2.isSome ∈ L.feats.map (·.2.isSome) := List.mem_map_of_mem hx
+    rw [hsh] at this
+    obtain ⟨e, he, heq⟩ := List.mem_map.mp this
+    rw [← heq]; exact h e he
+  · refine Or.inr (filterMap_all_none _ (fun x hx => ?_))
+    have : x.2.isSome ∈ L.feats.map (·.2.isSome) := List.mem_map_of_mem hx
+    rw [hsh] at this
+    obtain ⟨e, he, heq⟩ := List.mem_map.mp this
+    have := h e he
+    rw [this] at heq
+    cases hx2 : x.2 with
+    | none => rfl
+    | some v => rw [hx2] at heq; simp at heq
+
+/-- **C12, one line.** A rendered row, parsed on its own, gives exactly the row of the table. -/
+theorem C12_libsvm_line (conv : Conv) (gR gI gQ : Bytes → Res Nat) (gC : Bytes → Res (Nat × Nat))
+    (hE : ExactWith conv gR gI gQ gC) (iw mode : Nat) (σ : LineStyle) (r : TRow) (hwf : WfLine σ r)
+    (hv : (∀ e ∈ r.entries, e.value.isSome = true) ∨ (∀ e ∈ r.entries, e.value = none))
+    (hb : (svmContent σ r).length + 2 < 2 ^ 64) (L : SvmLine) (hL : expLine gR gI gQ r = .ok L) :
+    rows (.libsvm iw mode) conv (svmContent σ r) = .ok [expectSvmRow iw mode L] := by
+  have F := svm_lineFormat hE.loc iw mode
+  have hline := svmLineS_render gR gI gQ hE.real hE.index hE.qid σ r hwf L hL
+  have hclean : ∀ b ∈ svmContent σ r, isEolB b = false := by
+    intro b hb'
+    have hc : Clean (svmContent σ r) := by
+      have := clean_dropEol
+      -- cleanliness of the content: every part is clean
+      obtain ⟨hses, _⟩ := hwf.ses
+      have hE' := entsBytes_clean _ _ hwf.fin.clean (fun x hx => ⟨(hses x hx).1.2, (hses x hx).2⟩)
+      unfold svmContent
+      refine (blanks_clean hwf.lead).append ((lexeme_clean hwf.label).append (Clean.append ?_ (Clean.append ?_ hE')))
+      · cases hw : r.weight with
+        | none => exact Clean.nil
+        | some w => exact Clean.cons (by decide) (lexeme_clean (hwf.weight w hw))
+      · cases hq : r.qid with
+        | none => exact Clean.nil
+        | some q =>
+          exact (blanks_clean hwf.qidSep.2).append (Clean.append
+            (by intro x hx; simp at hx; rcases hx with rfl | rfl | rfl | rfl <;> decide)
+            (lexeme_clean (digits_lexeme (hwf.qid q hq))))
+    have := hc b hb'
+    simp [nonStopB, isStopB] at this
+    exact this.2
+  rw [rows_libsvm, F.rows_single _ (fun _ _ => rfl) hb hclean, single]
+  simp only [svmRecS, hline, Except.map, Except.bind, Option.map, Option.toList_some]
+  have hsh := (expLine_shape gR gI gQ r L hL).2.2
+  have hu := feats_uniform r L hsh hv
+  have hag : AgreeRecs [if mode > 0 then decRecIdx iw (svmRec L) else svmRec L] := by
+    apply agreeRecs_single
+    · by_cases hm : mode > 0
+      · rw [if_pos hm]
+        rcases hu with h | h
+        · exact Or.inl (by simp only [decRecIdx, svmRec, List.length_map]; exact h)
+        · exact Or.inr h
+      · rw [if_neg hm]
+        rcases hu with h | h
+        · exact Or.inl (by simp only [svmRec, List.length_map]; exact h)
+        · exact Or.inr h
+    · by_cases hm : mode > 0
+      · rw [if_pos hm]; exact Or.inr rfl
+      · rw [if_neg hm]; exact Or.inr rfl
+  rw [rowsOf_build _ hag (by simp)]
+  rfl
+
+theorem svmContent_clean {σ : LineStyle} {r : TRow} (hwf : WfLine σ r) : Clean (svmContent σ r) := by
+  obtain ⟨hses, _⟩ := hwf.ses
+  have hE' := entsBytes_clean _ _ hwf.fin.clean (fun x hx => ⟨(hses x hx).1.2, (hses x hx).2⟩)
+  unfold svmContent
+  refine (blanks_clean hwf.lead).append ((lexeme_clean hwf.label).append (Clean.append ?_ (Clean.append ?_ hE')))
+  · cases hw : r.weight with
+    | none => exact Clean.nil
+    | some w => exact Clean.cons (by decide) (lexeme_clean (hwf.weight w hw))
+  · cases hq : r.qid with
+    | none => exact Clean.nil
+    | some q =>
+      exact (blanks_clean hwf.qidSep.2).append (Clean.append
+        (by intro x hx; simp at hx; rcases hx with rfl | rfl | rfl | rfl <;> decide)
+        (lexeme_clean (digits_lexeme (hwf.qid q hq))))
+
+theorem clean_noEol {s : Bytes} (h : Clean s) : ∀ b ∈ s, isEolB b = false := by
+  intro b hb
+  have := h b hb
+  simp [nonStopB, isStopB] at this
+  exact this.2
+
+theorem fillerContent_clean {f : Filler} (h : WfFiller f) : Clean (f.blanks ++ cPart f.comment) := by
+  refine (blanks_clean h.blanks).append ?_
+  cases hc : f.comment with
+  | none => exact Clean.nil
+  | some c => exact Clean.cons (by decide) (h.comment c hc)
+
+/-- a blank / comment line of the style gives no row -/
+theorem filler_rows (conv : Conv) (hL : conv.Local) (iw mode : Nat) (f : Filler) (h : WfFiller f)
+    (hb : (f.blanks ++ cPart f.comment).length + 3 < 2 ^ 64) :
+    rows (.libsvm iw mode) conv (f.blanks ++ cPart f.comment) = .ok [] := by
+  cases hc : f.comment with
+  | none =>
+    rw [hc] at hb
+    simp only [cPart, List.append_nil] at hb ⊢
+    exact (C11_blank_and_comment_lines_libsvm iw mode conv hL f.blanks [] h.blanks (by simp) (by omega)
+      (by simp only [List.length_append, List.length_cons, List.length_nil]; omega)).1
+  | some c =>
+    rw [hc] at hb
+    simp only [cPart] at hb ⊢
+    exact (C11_blank_and_comment_lines_libsvm iw mode conv hL f.blanks c h.blanks
+      (clean_noEol (h.comment c hc)) (by simp only [List.length_append, List.length_cons] at hb; omega) (by omega)).2
+
+theorem piece_length_le (ps : List (Bytes × Bytes)) (p : Bytes × Bytes) (hp : p ∈ ps) :
+    p.1.length + p.2.length ≤ (joinPieces ps).length := by
+  induction ps with
+  | nil => simp at hp
+  | cons q ps ih =>
+    have hj : (joinPieces (q :: ps)).length = q.1.length + q.2.length + (joinPieces ps).length := by
+      simp [joinPieces]; omega
+    rw [hj]
+    rcases List.mem_cons.mp hp with rfl | h
+    · omega
+    · have := ih h; omega
+
+/-- the pieces of a styled table, parsed one by one -/
+theorem pieces_rows (conv : Conv) (gR gI gQ : Bytes → Res Nat) (gC : Bytes → Res (Nat × Nat))
+    (hE : ExactWith conv gR gI gQ gC) (iw mode : Nat) :
+    ∀ (Z : List (RowStyle × TRow)) (Ls : List SvmLine), (∀ z ∈ Z, WfRow z.1 z.2) →
+      (∀ p ∈ Z.flatMap svmPieces, p.1.length + 3 < 2 ^ 64) →
+      Z.mapM (fun z => expLine gR gI gQ z.2) = .ok Ls →
+      ∃ R, (Z.flatMap svmPieces).mapM (fun p => rows (.libsvm iw mode) conv p.1) = .ok R ∧
+        R.flatten = Ls.map (expectSvmRow iw mode) := by
+  have hLoc : conv.Local := ⟨gR, gI, gQ, gC, hE.loc⟩
+  intro Z
+  induction Z with
+  | nil => intro Ls _ _ h; simp [pure, Except.pure] at h; subst h; exact ⟨[], rfl, rfl⟩
+  | cons z Z ih =>
+    intro Ls hwf hbd h
+    obtain ⟨L, Ls', hL, hLs', rfl⟩ := mapM_cons_ok _ _ _ _ h
+    have hz := hwf z (by simp)
+    obtain ⟨R', hR', hfl⟩ := ih Ls' (fun x hx => hwf x (by simp [hx]))
+      (fun p hp => hbd p (by simp only [List.flatMap_cons, List.mem_append]; exact Or.inr hp)) hLs'
+    -- the filler lines
+    have hfill : ∀ (fs : List Filler), (∀ f ∈ fs, WfFiller f) →
+        (∀ f ∈ fs, (f.blanks ++ cPart f.comment).length + 3 < 2 ^ 64) →
+        (fs.map (fun f => (f.blanks ++ cPart f.comment, f.eol))).mapM (fun p => rows (.libsvm iw mode) conv p.1)
+          = .ok (List.replicate fs.length []) := by
+      intro fs
+      induction fs with
+      | nil => intro _ _; rfl
+      | cons f fs ihf =>
+        intro hw hb
+        simp only [List.map_cons, List.mapM_cons, filler_rows conv hLoc iw mode f (hw f (by simp)) (hb f (by simp)),
+          ihf (fun x hx => hw x (by simp [hx])) (fun x hx => hb x (by simp [hx])), bind, Except.bind, pure, Except.pure,
+          List.length_cons, List.replicate_succ]
+    have hf := hfill z.1.filler hz.filler (fun f hf' => hbd (f.blanks ++ cPart f.comment, f.eol) (by
+      simp only [List.flatMap_cons, List.mem_append, svmPieces, List.mem_map]
+      exact Or.inl (Or.inl ⟨f, hf', rfl⟩)))
+    have hrow := C12_libsvm_line conv gR gI gQ gC hE iw mode z.1.line z.2 hz.line hz.values
+      (by
+        have := hbd (svmContent z.1.line z.2, z.1.eol) (by
+          simp only [List.flatMap_cons, List.mem_append, svmPieces]
+          exact Or.inl (Or.inr (by simp)))
+        simp only at this; omega) L hL
+    refine ⟨List.replicate z.1.filler.length [] ++ [[expectSvmRow iw mode L]] ++ R', ?_, ?_⟩
+    · simp only [List.flatMap_cons, svmPieces, List.mapM_append, hf, hR', List.mapM_cons, List.mapM_nil, hrow, bind,
+        Except.bind, pure, Except.pure]
+    · simp [flatten_replicate_nil, hfl]
+
+/-- the rows a table describes agree on their optional parts when the table does -/
+theorem agree_expected (gR gI gQ : Bytes → Res Nat) (iw mode : Nat) (Z : List (RowStyle × TRow)) (Ls : List SvmLine)
+    (h : Z.mapM (fun z => expLine gR gI gQ z.2) = .ok Ls)
+    (hW : (∀ z ∈ Z, z.2.weight.isSome = true) ∨ (∀ z ∈ Z, z.2.weight = none))
+    (hQ : (∀ z ∈ Z, z.2.qid.isSome = true) ∨ (∀ z ∈ Z, z.2.qid = none))
+    (hV : (∀ z ∈ Z, ∀ e ∈ z.2.entries, e.value.isSome = true) ∨ (∀ z ∈ Z, ∀ e ∈ z.2.entries, e.value = none)) :
+    AgreeRows (Ls.map (expectSvmRow iw mode)) := by
+  have hsrc : ∀ L ∈ Ls, ∃ z ∈ Z, expLine gR gI gQ z.2 = .ok L := mapM_mem _ _ _ h
+  have hrow : ∀ x ∈ Ls.map (expectSvmRow iw mode), ∃ L ∈ Ls, x = expectSvmRow iw mode L := by
+    intro x hx; obtain ⟨L, hL, rfl⟩ := List.mem_map.mp hx; exact ⟨L, hL, rfl⟩
+  have hlabel : ∀ L, (expectSvmRow iw mode L).label = some L.label ∧ (expectSvmRow iw mode L).weight = L.weight ∧
+      (expectSvmRow iw mode L).qid = L.qid := by
+    intro L; by_cases hm : mode > 0 <;> simp [expectSvmRow, hm, toRow, decRecIdx, svmRec]
+  refine ⟨Or.inl ?_, ?_, ?_, ?_⟩
+  · intro x hx; obtain ⟨L, _, rfl⟩ := hrow x hx; rw [(hlabel L).1]; rfl
+  · rcases hW with hw | hw
+    · refine Or.inl (fun x hx => ?_)
+      obtain ⟨L, hL, rfl⟩ := hrow x hx
+      obtain ⟨z, hz, hzL⟩ := hsrc L hL
+      rw [(hlabel L).2.1, (expLine_shape gR gI gQ z.2 L hzL).1]; exact hw z hz
+    · refine Or.inr (fun x hx => ?_)
+      obtain ⟨L, hL, rfl⟩ := hrow x hx
+      obtain ⟨z, hz, hzL⟩ := hsrc L hL
+      have := (expLine_shape gR gI gQ z.2 L hzL).1
+      rw [hw z hz] at this
+      rw [(hlabel L).2.1]
+      cases hlw : L.weight with
+      | none => rfl
+      | some v => rw [hlw] at this; simp at this
+  · rcases hQ with hw | hw
+    · refine Or.inl (fun x hx => ?_)
+      obtain ⟨L, hL, rfl⟩ := hrow x hx
+      obtain ⟨z, hz, hzL⟩ := hsrc L hL
+      rw [(hlabel L).2.2, (expLine_shape gR gI gQ z.2 L hzL).2.1]; exact hw z hz
+    · refine Or.inr (fun x hx => ?_)
+      obtain ⟨L, hL, rfl⟩ := hrow x hx
+      obtain ⟨z, hz, hzL⟩ := hsrc L hL
+      have := (expLine_shape gR gI gQ z.2 L hzL).2.1
+      rw [hw z hz] at this
+      rw [(hlabel L).2.2]
+      cases hlw : L.qid with
+      | none => rfl
+      | some v => rw [hlw] at this; simp at this
+  · rcases hV with hv | hv
+    · refine Or.inl (fun x hx hidx => ?_)
+      obtain ⟨L, hL, rfl⟩ := hrow x hx
+      obtain ⟨z, hz, hzL⟩ := hsrc L hL
+      have hu := feats_uniform z.2 L (expLine_shape gR gI gQ z.2 L hzL).2.2 (Or.inl (hv z hz))
+      have hlen : (L.feats.filterMap (·.2)).length = L.feats.length := by
+        rcases hu with h1 | h1
+        · exact h1
+        · exact filterMap_all_some _ (fun y hy => by
+            have : y.2.isSome ∈ L.feats.map (·.2.isSome) := List.mem_map_of_mem hy
+            rw [(expLine_shape gR gI gQ z.2 L hzL).2.2] at this
+            obtain ⟨e, he, heq⟩ := List.mem_map.mp this
+            rw [← heq]; exact hv z hz e he)
+      by_cases hm : mode > 0
+      · simp only [expectSvmRow, hm, if_true, toRow, decRecIdx, svmRec] at hidx ⊢
+        have hne : L.feats ≠ [] := by intro e; rw [e] at hidx; simp at hidx
+        have : L.feats.filterMap (·.2) ≠ [] := by
+          intro e; rw [e] at hlen; simp at hlen; exact hne (List.eq_nil_of_length_eq_zero hlen.symm)
+        simp [this, hne]
+      · simp only [expectSvmRow, hm, if_false, toRow, svmRec] at hidx ⊢
+        have hne : L.feats ≠ [] := by intro e; rw [e] at hidx; simp at hidx
+        have : L.feats.filterMap (·.2) ≠ [] := by
+          intro e; rw [e] at hlen; simp at hlen; exact hne (List.eq_nil_of_length_eq_zero hlen.symm)
+        simp [this, hne]
+    · refine Or.inr (fun x hx => ?_)
+      obtain ⟨L, hL, rfl⟩ := hrow x hx
+      obtain ⟨z, hz, hzL⟩ := hsrc L hL
+      have hnil : L.feats.filterMap (·.2) = [] := by
+        rcases feats_uniform z.2 L (expLine_shape gR gI gQ z.2 L hzL).2.2 (Or.inr (hv z hz)) with h1 | h1
+        · apply filterMap_all_none
+          intro y hy
+          have : y.2.isSome ∈ L.feats.map (·.2.isSome) := List.mem_map_of_mem hy
+          rw [(expLine_shape gR gI gQ z.2 L hzL).2.2] at this
+          obtain ⟨e, he, heq⟩ := List.mem_map.mp this
+          rw [hv z hz e he] at heq
+          cases hy2 : y.2 with
+          | none => rfl
+          | some v => rw [hy2] at heq; simp at heq
+        · exact h1
+      by_cases hm : mode > 0 <;> simp [expectSvmRow, hm, toRow, decRecIdx, svmRec, hnil]
+
+/-- **C12 for libsvm.** For every table `T`, every style `σ` (one per row), every indexing mode and index
+width, and every conversion that is local and exact: if the table is well formed (`WfRow`: lexemes, separators
+of blanks, end-of-line strings of `\n` / `\r`, blank and comment lines, trailing comments …), its rows agree
+on the presence of weights / qids / values, and every lexeme has a meaning (`expLine` succeeds), then
+`ParseBlock` on the rendered document returns exactly the rows of the table, in order. -/
+theorem C12_libsvm (conv : Conv) (gR gI gQ : Bytes → Res Nat) (gC : Bytes → Res (Nat × Nat))
+    (hE : ExactWith conv gR gI gQ gC) (iw mode : Nat) (σ : List RowStyle) (T : List TRow)
+    (hlen : σ.length = T.length) (hwf : ∀ z ∈ σ.zip T, WfRow z.1 z.2)
+    (hW : (∀ r ∈ T, r.weight.isSome = true) ∨ (∀ r ∈ T, r.weight = none))
+    (hQ : (∀ r ∈ T, r.qid.isSome = true) ∨ (∀ r ∈ T, r.qid = none))
+    (hV : (∀ r ∈ T, ∀ e ∈ r.entries, e.value.isSome = true) ∨ (∀ r ∈ T, ∀ e ∈ r.entries, e.value = none))
+    (hb : (renderSvm σ T).length + 2 < 2 ^ 64) (Ls : List SvmLine)
+    (hLs : T.mapM (expLine gR gI gQ) = .ok Ls) :
+    rows (.libsvm iw mode) conv (renderSvm σ T) = .ok (Ls.map (expectSvmRow iw mode)) := by
+  have hLoc : conv.Local := ⟨gR, gI, gQ, gC, hE.loc⟩
+  have hsnd : (σ.zip T).map (·.2) = T := by rw [List.map_snd_zip]; omega
+  have hmemT : ∀ z ∈ σ.zip T, z.2 ∈ T := fun z hz => (List.of_mem_zip hz).2
+  have hLs' : (σ.zip T).mapM (fun z => expLine gR gI gQ z.2) = .ok Ls := by
+    rw [← hsnd, mapM_map'] at hLs; exact hLs
+  have hnil : rows (.libsvm iw mode) conv [] = .ok [] :=
+    (C11_blank_and_comment_lines_libsvm iw mode conv hLoc [] [] (by intro b hb'; simp at hb') (by simp) (by simp)
+      (by simp)).1
+  have hpw : ∀ p ∈ (σ.zip T).flatMap svmPieces, (∀ b ∈ p.1, isEolB b = false) ∧ isEolStr p.2 := by
+    intro p hp
+    obtain ⟨z, hz, hpz⟩ := List.mem_flatMap.mp hp
+    have hzw := hwf z hz
+    simp only [svmPieces, List.mem_append, List.mem_map, List.mem_singleton] at hpz
+    rcases hpz with ⟨f, hf, rfl⟩ | rfl
+    · exact ⟨clean_noEol (fillerContent_clean (hzw.filler f hf)), (hzw.filler f hf).eol⟩
+    · exact ⟨clean_noEol (svmContent_clean hzw.line), hzw.eol⟩
+  have hbd : ∀ p ∈ (σ.zip T).flatMap svmPieces, p.1.length + 3 < 2 ^ 64 := fun p hp => by
+    have h1 := piece_length_le _ p hp
+    have h2 : 1 ≤ p.2.length := by
+      have := (hpw p hp).2.1
+      cases hp2 : p.2 with
+      | nil => exact absurd hp2 this
+      | cons _ _ => simp
+    unfold renderSvm at hb; omega
+  obtain ⟨R, hR, hfl⟩ := pieces_rows conv gR gI gQ gC hE iw mode (σ.zip T) Ls hwf hbd hLs'
+  obtain ⟨rss, hl, hfl2⟩ := rows_pieces _ hnil _ R hR hpw
+  have ha : AgreeRows rss.flatten := by
+    rw [hfl2, hfl]
+    exact agree_expected gR gI gQ iw mode (σ.zip T) Ls hLs'
+      (by rcases hW with h | h; exact Or.inl (fun z hz => h _ (hmemT z hz)); exact Or.inr (fun z hz => h _ (hmemT z hz)))
+      (by rcases hQ with h | h; exact Or.inl (fun z hz => h _ (hmemT z hz)); exact Or.inr (fun z hz => h _ (hmemT z hz)))
+      (by rcases hV with h | h; exact Or.inl (fun z hz => h _ (hmemT z hz)); exact Or.inr (fun z hz => h _ (hmemT z hz)))
+  have := C11_block_is_concat_of_lines_libsvm iw mode conv hLoc (renderSvm σ T) hb rss hl ha
+  rw [this, hfl2, hfl]
+
+/-! ### non-vacuity -/
+
+/-- the conversion of the C11 witnesses (decimal digits at the start of the token run) is local and exact -/
+theorem convRun_exact : ExactWith C11Witness.convRun (fun r => .ok (C11Witness.dig r)) (fun r => .ok (C11Witness.dig r))
+    (fun r => .ok (C11Witness.dig r)) (fun r => .ok (C11Witness.dig r, (r.takeWhile C11Witness.isDig).length)) := by
+  have hex : Exact (fun r => (.ok (C11Witness.dig r) : Res Nat)) := ⟨fun lex tail _ ht => by
+    have : (lex ++ tail).takeWhile C11Witness.isDig = lex.takeWhile C11Witness.isDig :=
+      takeWhile_append_stop _ _ _ (fun b hb => by
+        have := delim_notDigit b (ht b hb)
+        simp [C11Witness.isDig, isDigitCharB, Gen.Parse.isdigitchars] at this ⊢
+        omega)
+    simp [C11Witness.dig, this]⟩
+  exact ⟨⟨fun _ _ _ => rfl, fun _ _ _ => rfl, fun _ _ _ => rfl, fun _ _ _ => rfl⟩, hex, hex, hex⟩
+
+/-- "  1:2 qid:7\t3:4 5:6 # c\r\n" preceded by a comment line "# x\n", 1-based: the conclusion of `C12_libsvm`
+computed on the model -/
+example :
+    rows (.libsvm 32 1) C11Witness.convRun
+      (renderSvm [{ filler := [{ blanks := [], comment := some [32, 120], eol := [10] }],
+                    line := { lead := [32, 32], qidSep := [32], seps := [[9], [32]], trail := [32], comment := some [32, 99] },
+                    eol := [13, 10] }]
+                 [{ label := [49], weight := some [50], qid := some [55],
+                    entries := [{ index := [51], value := some [52] }, { index := [53], value := some [54] }] }])
+      = .ok [{ label := some 1, weight := some 2, qid := some 7, field := none, index := [2, 4], value := some [4, 6] }] := by
+  decide
+
+/-! ### libfm and csv: statements (see CONFIG['partial']) -/
+
+def fmEntryBytes (e : Entry) : Bytes := e.field ++ 58 :: (e.index ++ valPart e.value)
+
+def fmContent (σ : LineStyle) (r : TRow) : Bytes :=
+  σ.lead ++ (r.label ++ (valPart r.weight ++
+    (((σ.seps.zip r.entries).flatMap fun se => se.1 ++ fmEntryBytes se.2) ++ σ.trail)))
+
+def renderFm (σ : List RowStyle) (T : List TRow) : Bytes :=
+  joinPieces ((σ.zip T).flatMap fun z =>
+    z.1.filler.map (fun f => (f.blanks, f.eol)) ++ [(fmContent z.1.line z.2, z.1.eol)])
+
+/-- what a table row means as a libfm line -/
+def expLineFm (gR gI : Bytes → Res Nat) (r : TRow) : Res FmLine := do
   let label ← gR r.label
-  let weight ← match r.weight with | some w => (gR w).map some | none => pure none
-  let qid ← match r.qid with | some q => (gQ (decimal q)).map some | none => pure none
-  let idx ← r.entries.mapM fun e => (gI (decimal e.index)).map fun i => if mode > 0 then decIdx iw i else i
-  let fld ← r.entries.mapM fun e => (gI (decimal e.field)).map fun i => if mode > 0 then decIdx iw i else i
-  let vals ← r.entries.filterMap (·.value) |>.mapM gR
-  return { label := some label, weight, qid, field := if fm && !r.entries.isEmpty then some fld else none,
-           index := idx, value := if vals.isEmpty then none else some vals }
+  let weight ← (match r.weight with | some w => (gR w).map some | none => pure none : Res (Option Nat))
+  let feats ← r.entries.mapM fun e => do
+    let f ← gI e.field
+    let i ← gI e.index
+    let v ← (match e.value with | some v => (gR v).map some | none => pure none : Res (Option Nat))
+    pure (f, i, v)
+  pure { label, weight, feats }
 
-/-- **C12 for libsvm (full statement)**: for every table, every style and every exact conversion the parser
-returns exactly the rows of the table -/
-def C12_libsvm_statement : Prop :=
-  ∀ (conv : Conv) (gR gI gQ : Bytes → Res Nat) (gC : Bytes → Res (Nat × Nat)), Conv.ExactWith conv gR gI gQ gC →
-  ∀ (iw mode : Nat) (σ : List RowStyle) (T : List TRow), σ.length = T.length →
-    (∀ sr ∈ σ.zip T, WfRow false mode sr.1 sr.2) →
-    (∀ r ∈ T, ∀ r' ∈ T, r.weight.isSome = r'.weight.isSome ∧ r.qid.isSome = r'.qid.isSome) →
-    (renderSvm σ T).length + 2 < 2 ^ 64 →
-    ∀ rows, T.mapM (expectRow false gR gI gQ iw mode) = .ok rows →
-      C11.rows (.libsvm iw mode) conv (renderSvm σ T) = .ok rows
+def expectFmRow (iw mode : Nat) (L : FmLine) : Row :=
+  toRow (if mode > 0 then decRecBoth iw (fmRec L) else fmRec L)
 
+/-- **C12 for libfm** (stated): as `C12_libsvm`, with `field:index[:value]` entries (fields and indices both
+shifted under 1-based indexing), no qid, no comments (blank filler lines only) -/
 def C12_libfm_statement : Prop :=
-  ∀ (conv : Conv) (gR gI gQ : Bytes → Res Nat) (gC : Bytes → Res (Nat × Nat)), Conv.ExactWith conv gR gI gQ gC →
+  ∀ (conv : Conv) (gR gI gQ : Bytes → Res Nat) (gC : Bytes → Res (Nat × Nat)), ExactWith conv gR gI gQ gC →
   ∀ (iw mode : Nat) (σ : List RowStyle) (T : List TRow), σ.length = T.length →
-    (∀ sr ∈ σ.zip T, WfRow true mode sr.1 sr.2) →
-    (∀ r ∈ T, ∀ r' ∈ T, r.weight.isSome = r'.weight.isSome) →
-    (renderFm σ T).length + 2 < 2 ^ 64 →
-    ∀ rows, T.mapM (expectRow true gR gI gQ iw mode) = .ok rows →
-      C11.rows (.libfm iw mode) conv (renderFm σ T) = .ok rows
-
-/-! csv -/
+    (∀ z ∈ σ.zip T, WfRow z.1 z.2 ∧ z.1.line.comment = none ∧ z.2.qid = none ∧
+      (∀ f ∈ z.1.filler, f.comment = none) ∧ ∀ e ∈ z.2.entries, IsDigits e.field) →
+    ((∀ r ∈ T, r.weight.isSome = true) ∨ (∀ r ∈ T, r.weight = none)) →
+    ((∀ r ∈ T, ∀ e ∈ r.entries, e.value.isSome = true) ∨ (∀ r ∈ T, ∀ e ∈ r.entries, e.value = none)) →
+    (renderFm σ T).length + 2 < 2 ^ 64 → ∀ Ls, T.mapM (expLineFm gR gI) = .ok Ls →
+      rows (.libfm iw mode) conv (renderFm σ T) = .ok (Ls.map (expectFmRow iw mode))
 
 structure CsvStyle where
   delim : UInt8
-  eol : List Bytes          -- per row
-  pad : List (List (Bytes × Bytes))   -- blanks around each non-empty cell
+  eol : List Bytes                     -- per row
+  pad : List (List (Bytes × Bytes))    -- blanks around each non-empty cell
 
 /-- a csv table: each row a list of cells, `none` = empty cell -/
 def renderCsv (σ : CsvStyle) (T : List (List (Option Bytes))) : Bytes :=
@@ -143,117 +461,19 @@ def expectCsvRow (gC : Bytes → Res (Nat × Nat)) (prm : CsvParam) (cells : Lis
            qid := none, field := none, index := present.map (·.1)
            value := if present.isEmpty then none else some (present.map (·.2)) }
 
+/-- **C12 for csv** (stated): delimiter-separated lexemes, label / weight columns routed, empty cells absent but
+numbered; the cell conversion exact with the end pointer directly behind the lexeme -/
 def C12_csv_statement : Prop :=
-  ∀ (conv : Conv) (gR gI gQ : Bytes → Res Nat) (gC : Bytes → Res (Nat × Nat)), Conv.ExactWith conv gR gI gQ gC →
+  ∀ (conv : Conv) (gR gI gQ : Bytes → Res Nat) (gC : Bytes → Res (Nat × Nat)), ExactWith conv gR gI gQ gC →
+  (∀ lex tail : Bytes, IsLexeme lex → (∀ b, tail.head? = some b → isDelimB b = true) →
+    gC (lex ++ tail) = gC lex ∧ ∀ v k, gC lex = .ok (v, k) → k = lex.length) →
   ∀ (prm : CsvParam) (σ : CsvStyle) (T : List (List (Option Bytes))),
     isDelimB σ.delim = true → isEolB σ.delim = false → σ.delim.toNat = prm.delim →
     σ.eol.length = T.length → σ.pad.length = T.length → (∀ e ∈ σ.eol, isEolStr e) →
     (∀ r ∈ T, r ≠ [] ∧ r.getLast? ≠ some none ∧ ∀ c ∈ r, ∀ lex, c = some lex → IsLexeme lex) →
     (∀ ps ∈ σ.pad, ∀ p ∈ ps, blanksOnly p.1 ∧ blanksOnly p.2 ∧ (isBlankB σ.delim = true → p.1 = [] ∧ p.2 = [])) →
     (renderCsv σ T).length + 2 < 2 ^ 64 →
-    ∀ rows, T.mapM (expectCsvRow gC prm) = .ok rows → AgreeRows rows →
-      C11.rows (.csv prm) conv (renderCsv σ T) = .ok rows
-
-/-! ### the proved core: ParsePair on a rendered pair -/
-
-theorem dropWhile_blanks_lex (pred : UInt8 → Bool) (bl lex rest : Bytes) (hb : ∀ b ∈ bl, pred b = true)
-    (hl : ∀ d r, lex = d :: r → pred d = false) (hne : lex ≠ []) :
-    (bl ++ lex ++ rest).dropWhile pred = lex ++ rest := by
-  induction bl with
-  | nil =>
-    cases lex with
-    | nil => exact absurd rfl hne
-    | cons d r => simp [List.dropWhile, hl d r rfl]
-  | cons b bl ih =>
-    have := ih (fun x hx => hb x (by simp [hx]))
-    simp only [List.cons_append, List.dropWhile, hb b (by simp)]
-    simpa [List.append_assoc] using this
-
-theorem notDigit_of_digit (b : UInt8) (h : isDigitCharB b = true) : notDigitCharB b = false := by
-  simp only [notDigitCharB, isDigitCharB] at *; simp [h]
-
-theorem dropWhile_lex_delim (lex tail : Bytes) (hl : ∀ b ∈ lex, isDigitCharB b = true)
-    (ht : ∀ b, tail.head? = some b → isDigitCharB b = false) :
-    (lex ++ tail).dropWhile isDigitCharB = tail := by
-  induction lex with
-  | nil =>
-    cases tail with
-    | nil => rfl
-    | cons b t => simp [List.dropWhile, ht b rfl]
-  | cons d lex ih => simp [List.dropWhile, hl d (by simp), ih (fun x hx => hl x (by simp [hx]))]
-
-theorem blank_notDigit (b : UInt8) (h : isBlankB b = true) : notDigitCharB b = true := by
-  simp [isBlankB, Gen.Parse.isblank, notDigitCharB, Gen.Parse.isdigitchars] at *; omega
-
-theorem delim_notDigit (b : UInt8) (h : isDelimB b = true) : isDigitCharB b = false := by
-  simp [isDelimB] at h; exact h.1
-
-/-- **C12, proved core.** `ParsePair` (specification `pairS`, equal to the pointer model by
-`parsePair_at`) on `blanks lexeme₁ : lexeme₂ tail`, where `tail` is empty or starts with a blank or any
-other delimiter but `:`: returns 2, exactly the two values the lexemes have standing alone, and stops
-exactly at `tail`. -/
-theorem C12_pair_partial (g1 g2 : Bytes → Res Nat) (h1 : Exact g1) (h2 : Exact g2)
-    (bl lex1 lex2 tail : Bytes) (v1 v2 : Nat)
-    (hbl : blanksOnly bl) (hl1 : IsLexeme lex1) (hl2 : IsLexeme lex2)
-    (hns1 : ∀ b ∈ lex1, nonStopB b = true) (hns2 : ∀ b ∈ lex2, nonStopB b = true)
-    (ht : ∀ b, tail.head? = some b → isDelimB b = true) (htns : ∀ b ∈ tail, nonStopB b = true)
-    (hv1 : g1 lex1 = .ok v1) (hv2 : g2 lex2 = .ok v2) :
-    pairS g1 g2 (bl ++ lex1 ++ 58 :: (lex2 ++ tail)) = .ok { r := 2, rest := tail, v1 := v1, v2 := v2 } := by
-  obtain ⟨d1, r1, rfl⟩ : ∃ d r, lex1 = d :: r := by
-    cases lex1 with
-    | nil => exact absurd rfl hl1.1
-    | cons d r => exact ⟨d, r, rfl⟩
-  obtain ⟨d2, r2, rfl⟩ : ∃ d r, lex2 = d :: r := by
-    cases lex2 with
-    | nil => exact absurd rfl hl2.1
-    | cons d r => exact ⟨d, r, rfl⟩
-  have hcolon_nd : isDigitCharB 58 = false := by decide
-  have hcolon_delim : isDelimB 58 = true := by decide
-  have e1 : (bl ++ (d1 :: r1) ++ 58 :: ((d2 :: r2) ++ tail)).dropWhile notDigitCharB
-      = (d1 :: r1) ++ 58 :: ((d2 :: r2) ++ tail) :=
-    dropWhile_blanks_lex notDigitCharB bl (d1 :: r1) _ (fun b hb => blank_notDigit b (hbl b hb))
-      (fun d r h => by cases h; exact notDigit_of_digit _ (hl1.2 _ (by simp))) (by simp)
-  have run1 : ((d1 :: r1) ++ 58 :: ((d2 :: r2) ++ tail)).takeWhile nonStopB
-      = (d1 :: r1) ++ 58 :: ((d2 :: r2) ++ tail) :=
-    takeWhile_all _ _ (fun x hx => by
-      simp at hx
-      rcases hx with rfl | hx | rfl | rfl | hx | hx
-      · exact hns1 _ (by simp)
-      · exact hns1 _ (by simp [hx])
-      · decide
-      · exact hns2 _ (by simp)
-      · exact hns2 _ (by simp [hx])
-      · exact htns _ hx)
-  have run2 : ((d2 :: r2) ++ tail).takeWhile nonStopB = (d2 :: r2) ++ tail :=
-    takeWhile_all _ _ (fun x hx => by
-      simp at hx
-      rcases hx with rfl | hx | hx
-      · exact hns2 _ (by simp)
-      · exact hns2 _ (by simp [hx])
-      · exact htns _ hx)
-  have e2 : ((d1 :: r1) ++ 58 :: ((d2 :: r2) ++ tail)).dropWhile isDigitCharB = 58 :: ((d2 :: r2) ++ tail) :=
-    dropWhile_lex_delim _ _ hl1.2 (fun b hb => by simp at hb; subst hb; exact hcolon_nd)
-  have e3 : ((d2 :: r2) ++ tail).dropWhile isDigitCharB = tail :=
-    dropWhile_lex_delim _ _ hl2.2 (fun b hb => delim_notDigit b (ht b hb))
-  have hd2 : notDigitCharB d2 = false := notDigit_of_digit _ (hl2.2 d2 (by simp))
-  unfold pairS
-  rw [e1]
-  simp only [List.cons_append] at run1 run2 e2 e3 ⊢
-  simp only [run1, e2]
-  have g1e := h1.exact (d1 :: r1) (58 :: ((d2 :: r2) ++ tail)) hl1 (fun b hb => by simp at hb; subst hb; exact hcolon_delim)
-  simp only [List.cons_append] at g1e
-  rw [g1e, hv1]
-  have g2e := h2.exact (d2 :: r2) tail hl2 ht
-  simp only [List.cons_append] at g2e
-  have e4 : (58 :: d2 :: (r2 ++ tail)).dropWhile isBlankB = 58 :: d2 :: (r2 ++ tail) := by
-    simp [List.dropWhile, isBlankB, Gen.Parse.isblank]
-  have e5 : (d2 :: (r2 ++ tail)).dropWhile notDigitCharB = d2 :: (r2 ++ tail) := by
-    simp [List.dropWhile, hd2]
-  simp only [bind, Except.bind, e4, e5, run2, g2e, hv2, e3]
-  simp
-
-/-- the hypotheses of `C12_pair_partial` are satisfiable: "1.5:-2e3 " with the conversions of the driver -/
-example : IsLexeme [49, 46, 53] ∧ IsLexeme [45, 50, 101, 51] ∧ isDelimB 32 = true ∧ isDelimB 58 = true := by
-  refine ⟨⟨by decide, by decide⟩, ⟨by decide, by decide⟩, by decide, by decide⟩
+    ∀ rws, T.mapM (expectCsvRow gC prm) = .ok rws → AgreeRows rws →
+      rows (.csv prm) conv (renderCsv σ T) = .ok rws
 
 end DmlcModel.Props.C12
